@@ -380,9 +380,14 @@ func (repo *GoGitRepo) FetchRefs(remote string, prefixes ...string) (string, err
 		refSpecs[i] = config.RefSpec(fmt.Sprintf("refs/%s/*:refs/remotes/%s/%s/*", prefix, remote, prefix))
 	}
 
+	err := repo.looseTrackingRefs(remote, prefixes)
+	if err != nil {
+		return "", err
+	}
+
 	buf := bytes.NewBuffer(nil)
 
-	err := repo.r.Fetch(&gogit.FetchOptions{
+	err = repo.r.Fetch(&gogit.FetchOptions{
 		RemoteName: remote,
 		RefSpecs:   refSpecs,
 		Progress:   buf,
@@ -395,6 +400,58 @@ func (repo *GoGitRepo) FetchRefs(remote string, prefixes ...string) (string, err
 	}
 
 	return buf.String(), nil
+}
+
+// looseTrackingRefs makes sure that the remote-tracking refs a fetch is about to update exist as
+// loose ref files.
+//
+// go-git updates an existing ref during a fetch with a compare-and-swap that only looks at the loose
+// ref file. For a ref that only lives in packed-refs (after a `git gc` or `git pack-refs`, which git
+// also runs by itself) the comparison fails with "reference has changed concurrently" and leaves an
+// empty file behind. That file hides the packed ref: the fetch can never succeed again and git
+// itself refuses the repository (fsck, gc and repack stop on the broken ref).
+func (repo *GoGitRepo) looseTrackingRefs(remote string, prefixes []string) error {
+	isTracked := func(name string) bool {
+		for _, prefix := range prefixes {
+			if strings.HasPrefix(name, fmt.Sprintf("refs/remotes/%s/%s/", remote, prefix)) {
+				return true
+			}
+		}
+		return false
+	}
+
+	// remove what an earlier failure of that kind left
+	for _, prefix := range prefixes {
+		dir := filepath.Join(repo.path, "refs", "remotes", remote, prefix)
+		entries, err := os.ReadDir(dir)
+		if err != nil {
+			continue
+		}
+		for _, entry := range entries {
+			info, err := entry.Info()
+			if err == nil && info.Mode().IsRegular() && info.Size() == 0 {
+				_ = os.Remove(filepath.Join(dir, entry.Name()))
+			}
+		}
+	}
+
+	refIter, err := repo.r.References()
+	if err != nil {
+		return err
+	}
+	defer refIter.Close()
+
+	return refIter.ForEach(func(ref *plumbing.Reference) error {
+		name := ref.Name().String()
+		if ref.Type() != plumbing.HashReference || !isTracked(name) {
+			return nil
+		}
+		_, err := os.Stat(filepath.Join(repo.path, filepath.FromSlash(name)))
+		if os.IsNotExist(err) {
+			return repo.r.Storer.SetReference(ref)
+		}
+		return nil
+	})
 }
 
 // PushRefs push git refs matching a directory prefix to a remote
